@@ -553,7 +553,7 @@ def wsgi_uniform(ctx: Any) -> None:
     keys = {"kid-abc": (secret, "label-abc")}
     cur = {"now": NOW0}
     gate, clock, _cache = pu.make_gate("require", "worker-a", keys, 30, 100, True, lambda: cur["now"])
-    app = make_wsgi_app(RpcServer(Svc, Impl()), authenticate=require_all(gate), proxy_proof_required=True)
+    app = make_wsgi_app(RpcServer(Svc, Impl()), authenticate=require_all(gate), proxy_proof_required=True, token_key=b"k" * 32)
     client = falcon.testing.TestClient(app)
     history: list[str] = []
     reqs: list[tuple[list[str], str]] = [([], "absent"), ([""], "empty")] + [([v], "corpus") for v in CORPUS_VALUES[:25]]
